@@ -131,7 +131,7 @@ func TestC11_Moments(t *testing.T) {
 				if moment == "before-ready" {
 					w.releaseFirst(fault)
 				} else {
-					req := w.api.awaitList(wedgeBound + wedgeConfirm)
+					req := w.api.awaitListWedge()
 					if req == nil {
 						w.fail("WEDGE: no relist was issued")
 					}
@@ -212,7 +212,7 @@ func TestC11_Moments(t *testing.T) {
 		case "during-relist":
 			// a List call is pending at the gate while the node closes
 			if mech != "listerror" {
-				req := w.api.awaitList(wedgeBound + wedgeConfirm)
+				req := w.api.awaitListWedge()
 				if req == nil {
 					w.fail("WEDGE: no relist was issued")
 				}
